@@ -326,6 +326,24 @@ def rule_R4(ctx, typer, funcs):
                                                                                                     "endswith", "upper"}):
                     from ..nodetype import STR
                     ok = ft.type_of(node.func.value) == STR  # a str method on a str-typed expression (e.g. a slice of the path)
+                if not ok and isinstance(node.func, ast.Attribute) and isinstance(node.func.value, ast.Name) \
+                        and node.func.attr in ("setdefault", "get", "values", "keys", "items"):
+                    # a local dict keyed by id() values: hashing an int cannot fail or run user code
+                    from ..nodetype import ID as _ID
+                    from .common import resolve_local as _rl3
+                    init_ = _rl3(f, node.func.value)
+                    if isinstance(init_, ast.Name):
+                        from .common import reaching_def_nodes as _rdn
+                        cfg_ = typer.cfg_of(f)
+                        at_ = [cn_ for cn_ in cfg_.nodes if cn_.ast is not None and cn_.kind in ("stmt", "return", "test") and any(x is node for x in ast.walk(cn_.ast))
+                               and not isinstance(cn_.ast, (ast.For, ast.While, ast.If, ast.Try, ast.With))]
+                        ds_ = _rdn(at_[0], init_.id) if at_ else None
+                        if ds_ and all(norm(d_.ast.value) == norm(ds_[0].ast.value) for d_ in ds_):
+                            init_ = ds_[0].ast.value
+                    is_dict = (isinstance(init_, ast.Dict) and not init_.keys) or (isinstance(init_, ast.Call) and norm(init_.func) == "dict" and not init_.args and not init_.keywords)
+                    if is_dict and (node.func.attr in ("values", "keys", "items") and not node.args
+                                    or (node.func.attr in ("setdefault", "get") and node.args and ft.type_of(node.args[0]) == _ID)):
+                        ok = True
                 if ok:
                     ctx.inst("R4", f, node, "callee %s (%s)" % (norm(node.func), res.kind if res else "str method"))
                 else:
@@ -1298,7 +1316,8 @@ def rule_R8_split_unfiltered(ctx, typer):
     ok_split = norm(sp.func.value) == pathp and len(sp.args) == 1
     if ok_split:
         sep = resolve_local(f, sp.args[0])
-        ok_split = isinstance(sep, ast.Attribute) and sep.attr == "separator"
+        nodep = [q for q in f.posparams if q != f.selfname][0] if len(f.posparams) > 1 else "node"
+        ok_split = isinstance(sep, ast.Attribute) and sep.attr == "separator" and norm(sep.value) == nodep
     if ok_split:
         ctx.inst("R8", f, sp, "components = path.split(node.separator)")
     else:
@@ -1590,6 +1609,18 @@ def rule_G7_fanout_dedup(ctx, typer):
             elif isinstance(a, ast.Expr) and isinstance(a.value, ast.Call) and isinstance(a.value.func, ast.Attribute) \
                     and a.value.func.attr in ("append", "extend", "insert") and isinstance(a.value.func.value, ast.Name):
                 acc = a.value.func.value.id
+            if acc is None and isinstance(a, ast.Expr) and isinstance(a.value, ast.Call) and isinstance(a.value.func, ast.Attribute) \
+                    and a.value.func.attr == "setdefault" and len(a.value.args) == 2 and ft.type_of(a.value.args[0]) == ID:
+                # results merged in a dict keyed by id(): the first occurrence is kept, later ones are dropped - an identity duplicate test
+                n += 1
+                ctx.inst("G7", f, a, "merged through a dict keyed by id(node) (first occurrence wins)")
+                continue
+            if acc is None and isinstance(a, ast.Assign) and len(a.targets) == 1 and isinstance(a.targets[0], ast.Subscript) \
+                    and ft.type_of(a.targets[0].slice) == ID:
+                # d[id(m)] = m: an existing key keeps its position and the value is the same node
+                n += 1
+                ctx.inst("G7", f, a, "merged through a dict keyed by id(node)")
+                continue
             if acc is None:
                 continue
             # only accumulators of nodes (id sets used for the duplicate test itself are not results)
@@ -1629,6 +1660,54 @@ def rule_G7_fanout_dedup(ctx, typer):
                         t_ = d_.ast.body[0].test
                         if isinstance(t_, ast.Compare) and len(t_.ops) == 1 and isinstance(t_.ops[0], ast.Is):
                             ok = True
+            if not ok:
+                # the duplicate test may be skipped when the remaining components can neither climb ('..') nor fan out again
+                # ('**'): every match then lies a fixed number of levels below its start node, so two start nodes share none
+                from .common import resolve_local as _rl
+                recs_ = [c_ for s_ in lp.body for c_ in ast.walk(s_) if isinstance(c_, ast.Call) and norm(c_.func).endswith("__glob") and len(c_.args) == 2]
+                remp = norm(recs_[0].args[1]) if recs_ else (f.posparams[2] if len(f.posparams) > 2 else "remainder")
+
+                def excluded(c_, o_, depth=0):
+                    if depth > 4:
+                        return set(), False
+                    if isinstance(c_, ast.Name):
+                        r_ = _rl(f, c_)
+                        return excluded(r_, o_, depth + 1) if r_ is not c_ else (set(), False)
+                    if isinstance(c_, ast.UnaryOp) and isinstance(c_.op, ast.Not):
+                        return excluded(c_.operand, not o_, depth + 1)
+                    if isinstance(c_, ast.Call) and norm(c_.func) == "bool" and len(c_.args) == 1:
+                        return excluded(c_.args[0], o_, depth + 1)
+                    if isinstance(c_, ast.BoolOp) and ((isinstance(c_.op, ast.Or) and o_ is False) or (isinstance(c_.op, ast.And) and o_ is True)):
+                        out, rel = set(), False
+                        for v_ in c_.values:
+                            e_, r2 = excluded(v_, o_, depth + 1)
+                            out |= e_
+                            rel = rel or r2
+                        return out, rel
+                    if isinstance(c_, ast.Compare) and len(c_.ops) == 1 and isinstance(c_.ops[0], (ast.In, ast.NotIn)) and norm(c_.comparators[0]) == remp \
+                            and isinstance(c_.left, ast.Constant) and isinstance(c_.left.value, str):
+                        absent_ = isinstance(c_.ops[0], ast.NotIn) == bool(o_)
+                        return ({c_.left.value} if absent_ else set()), True
+                    return set(), any(isinstance(x, ast.Name) and x.id == remp for x in ast.walk(c_))
+                excl, related = set(), False
+                for c, o, _ in cfg.guards_of(cn):
+                    e_, r_ = excluded(c, o)
+                    excl |= e_
+                    related = related or r_
+                if {"..", "**"} <= excl:
+                    ok = True
+                    ctx.notes.append("G7: duplicate test skipped where the remainder holds neither '..' nor '**'")
+                elif related and excl:
+                    missing = sorted({"..", "**"} - excl)
+                    ctx.viol("G7", f, a, "the identity duplicate test of the '**' fan-out is skipped when the remaining components hold no %s, but "
+                             "%s can still follow: then several subtree nodes reach the same node and it is returned more than once" % (
+                                 " / ".join(repr(x) for x in sorted(excl)), " / ".join(repr(x) for x in missing)),
+                             construct="__glob: duplicate test skipped although %s may follow" % ", ".join(missing))
+                    continue
+                elif related:
+                    ctx.extra.setdefault("undecided", []).append("G7: when Resolver.__glob skips the duplicate test of the '**' fan-out depends on the "
+                                                                 "remaining components in a way that is not followed")
+                    continue
             if ok:
                 ctx.inst("G7", f, a, "added only after the identity duplicate test")
             else:
